@@ -4706,7 +4706,7 @@ impl<'a> Tyck<'a> for TyEnvT<su::TermId> {
                         {
                             | ss::Type::Prod(_) => {
                                 let mut expected_item = expected_view;
-                                let output = items
+                                let (output, annotations): (Vec<_>, Vec<_>) = items
                                     .into_iter()
                                     .map(|item| -> ResultKont<_> {
                                         let ss::Prod(item_ty, next_ty) = expected_item
@@ -4724,27 +4724,28 @@ impl<'a> Tyck<'a> for TyEnvT<su::TermId> {
                                     })
                                     .collect::<ResultKont<Vec<_>>>()?
                                     .into_iter()
-                                    .map(|(item, _)| item)
-                                    .collect::<Vec<_>>();
+                                    .unzip();
 
                                 let checked = self.mk(tail).tyck_k(
                                     tycker,
                                     Action::ana_prepared(expected_item.into(), &self.info),
                                 )?;
-                                let (tail, _) = checked.try_as_value(
+                                let (tail, ann) = checked.try_as_value(
                                     tycker,
                                     TyckError::SortMismatch,
                                     std::panic::Location::caller(),
                                 )?;
-                                // The tuple has the type it was checked against. Rebuilding a
-                                // product from the component types would give a sealed
-                                // `def P = A * B` away as its representation.
-                                let cons = Alloc::alloc(
-                                    tycker,
-                                    ss::ConsN(output, tail),
-                                    expected,
-                                    &self.info,
-                                );
+                                // The node records its representation, the product of the
+                                // component types, which the back ends lay the tuple out by.
+                                // The judgment returns the type the tuple was checked against:
+                                // returning the representation would give a sealed
+                                // `def P = A * B` away.
+                                let vtype = ss::VType.build(tycker, &self.info);
+                                let ann = annotations.into_iter().rev().fold(ann, |ann, head| {
+                                    Alloc::alloc(tycker, ss::Prod(head, ann), vtype, &self.info)
+                                });
+                                let cons =
+                                    Alloc::alloc(tycker, ss::ConsN(output, tail), ann, &self.info);
                                 TermAnnId::Value(cons, expected)
                             }
                             | ss::Type::Exists(_) | ss::Type::ManifestKind(_) => {
